@@ -359,6 +359,7 @@ pub fn run_c07(ctx: &Ctx) -> Report {
         "what": "LanguageIdentifier::maximize and Locale.id.maximize with variants and extensions attached"}), &st2);
     rep.collector = coll;
     run_c07_domains(ctx, &mut rep);
+    run_spelling_differential(ctx, &u, Which::Max, "c07.spelling", &mut rep);
     rep.distinct_nontrivial = st.local.nontrivial;
     rep.samples = st.local.samples_json(8);
     rep.extra.insert("maximize_results".into(), json!({"none": st.local.counters[0], "some": st.local.counters[1]}));
@@ -565,6 +566,7 @@ pub fn run_c08(ctx: &Ctx) -> Report {
         let _ = keep;
     }
     run_unknown_domains(ctx, &u, Which::Min, "c08.unknown", &mut rep);
+    run_spelling_differential(ctx, &u, Which::Min, "c08.spelling", &mut rep);
     run_pair_histories(ctx, &u, Which::Min, "c08.history", !ctx.quick(), &mut rep);
     super::conc::run_family(ctx, "minimize", "c08.schedule", &mut rep);
     rep.rule = "E4: the complete product L x S x R through likelysubtags::minimize; the laws of C08 are evaluated on the library alone (using the library's own maximize), the chosen form is also compared with the dictionary reference; then the in-place APIs on a sub-universe x variants x extensions. 'minimize(maximize(x)) == minimize(x)' is read at function-return level (DESIGN §6.1). Non-trivial = minimize returns a form.".into();
@@ -849,6 +851,72 @@ pub fn run_c07_domains(ctx: &Ctx, rep: &mut Report) {
     rep.add_space("E4.law_domains", json!({"kind": "complete subtag domains: every 2- and 3-letter language (18 252), every 4-letter script [quick: the Q... and Z... blocks and every 7th of the rest], every 2-letter and 3-digit region (1 676), each in the 6 x 7 contexts of the other two subtags, through the free function and the method: given subtags kept, all three present, a reported change is a change, idempotence",
         "calls": stx.local.counters[3], "changed": stx.local.nontrivial}), &stx);
     rep.collector = coll;
+}
+
+/// Every CLDR key and value written in other spellings (UPPER case with '_', each subtag
+/// capitalised): the in-place operation must return the same flag and leave the same text as for
+/// the canonical spelling -- the identifier is the same (C09), so is the result.  A spelling
+/// that leaves another internal representation behind (`UND` kept as text) changes the lookups.
+pub fn run_spelling_differential(ctx: &Ctx, u: &Universe, which: Which, sub: &'static str, rep: &mut Report) {
+    let coll = std::mem::take(&mut rep.collector);
+    let mut texts: Vec<&String> = vec![];
+    for (k, v) in &u.lk.entries {
+        texts.push(k);
+        texts.push(v);
+    }
+    texts.sort();
+    texts.dedup();
+    let op = |t: &str| -> Result<Option<(bool, String)>, String> {
+        guard_total(|| {
+            let mut li: LanguageIdentifier = t.parse().ok()?;
+            let ch = match which {
+                Which::Max => li.maximize(),
+                Which::Min => li.minimize(),
+            };
+            Some((ch, li.to_string()))
+        })
+    };
+    let st = par_range(ctx, "E4.spellings", texts.len() as u64, 64, &|i, l| {
+        let x = texts[i as usize];
+        let base = op(x);
+        let cap: String = x.split('-').map(|t| { let mut c = t.to_ascii_lowercase(); if let Some(f) = c.get_mut(0..1) { f.make_ascii_uppercase(); } c }).collect::<Vec<_>>().join("-");
+        for sp in [x.to_ascii_uppercase().replace('-', "_"), cap, x.to_ascii_lowercase()] {
+            l.counters[3] += 1;
+            let got = op(&sp);
+            if got != base {
+                coll.push(i, Violation { sub, class: format!("{:?}: the result depends on the letter case / separator in which the identifier was written", which), case: Case::Text(format!("spelling:{:?}:{}", which, sp)), expected: format!("{:?} (for {})", base, x), observed: format!("{:?} (for {})", got, sp) });
+            }
+        }
+        l.nontrivial += 1;
+    });
+    let mut stx = st;
+    stx.inputs = stx.local.counters[3];
+    rep.add_space("E4.spellings", json!({"kind": "every CLDR likelySubtags key and value in three other spellings (UPPER case with '_', capitalised, lower case) through parse + the in-place operation: same flag, same text as for the canonical spelling", "identifiers": texts.len()}), &stx);
+    rep.collector = coll;
+}
+
+pub fn replay_spelling(text: &str, coll: &Collector, sub: &'static str) {
+    // spelling:<Max|Min>:<text>
+    let p: Vec<&str> = text.splitn(3, ':').collect();
+    if p.len() != 3 {
+        return;
+    }
+    let which = if p[1] == "Max" { Which::Max } else { Which::Min };
+    let canon: Option<String> = p[2].parse::<LanguageIdentifier>().ok().map(|l| l.to_string());
+    let op = |t: &str| -> Option<(bool, String)> {
+        let mut li: LanguageIdentifier = t.parse().ok()?;
+        let ch = match which {
+            Which::Max => li.maximize(),
+            Which::Min => li.minimize(),
+        };
+        Some((ch, li.to_string()))
+    };
+    if let Some(c) = canon {
+        let (a, b) = (op(&c), op(p[2]));
+        if a != b {
+            coll.push(0, Violation { sub, class: "spelling".into(), case: Case::Text(text.to_string()), expected: format!("{:?}", a), observed: format!("{:?}", b) });
+        }
+    }
 }
 
 pub fn replay_law7(text: &str, coll: &Collector) {
